@@ -184,11 +184,25 @@ def classify_store(fi: FuncInfo, st: ast.Assign, par) -> tuple[str | None, str]:
     if it in (D + ".items()", D, D + ".keys()") and isinstance(tgt.slice, ast.Name) and tgt.slice.id in _loop_vars(inner):
         return "c:self-rescale", ""
     # (b)
+    # locals that are an injective image of the iterated element (`occupation = list(fock)`) stand for the element
+    derived_defs = {}
+    for _round in range(3):
+        for lp in loops:
+            for s_ in lp.body:
+                for x in ast.walk(s_):
+                    if isinstance(x, ast.Assign) and x is not st and len(x.targets) == 1 and isinstance(x.targets[0], ast.Name) and x.targets[0].id not in lvars:
+                        nm = x.targets[0].id
+                        vn = {y.id for y in ast.walk(x.value) if isinstance(y, ast.Name)} - INJECTIVE_WRAPPERS
+                        if vn & lvars and _injective_key(x.value, lvars, {})[0]:
+                            derived_defs.setdefault(nm, set()).add(id(x))
+    single = {nm for nm, ids in derived_defs.items() if len(ids) == 1}
+    first_defs = {id_ for nm in single for id_ in derived_defs[nm]}
+    lvars = lvars | single
     rebinds: dict[str, list] = {}
     for lp in loops:
         for s_ in lp.body:
             for x in ast.walk(s_):
-                if isinstance(x, ast.Assign) and x is not st:
+                if isinstance(x, ast.Assign) and x is not st and id(x) not in first_defs:
                     for t2 in x.targets:
                         if isinstance(t2, ast.Name) and t2.id in lvars:
                             rebinds.setdefault(t2.id, []).append(x)
